@@ -39,6 +39,12 @@ def client_program(rng, c, avoid, hc_names):
                          kinds=['zone', 'axis', 'parameter', 'computation', 'equipment', 'tool', 'calibration_coefficient',
                                 'well_reference_point', 'message', 'comment', 'long_name', 'path', 'splice'])
     prog = list(spec.ops)
+    if rng.random() < 0.35:
+        prog = prog[:2] + gen.toposhuffle(rng, prog[2:])      # e.g. metadata objects before channels, origin last
+    if 'mutating_reads' not in avoid:
+        for _ in range(rng.choice([0, 0, 1, 2])):
+            # pure reads of public properties at arbitrary points of the build: not part of the specification
+            prog.insert(rng.randint(2, len(prog)), {'op': 'read_props', 'lf': lfi['lf'], 'c': c})
     nw = rng.choice([1, 2, 2, 3])
     if 'second_write_param' in avoid and any(op.get('kind') in ('parameter', 'computation') and 'values' in op.get('kwargs', {})
                                              for op in prog):
@@ -167,6 +173,7 @@ def check_case(case, ex):
         if st['out'] == 'ok' and st.get('file') != st2.get('file'):
             loc = _locate(st.get('file') or b'', st2.get('file') or b'')
             f2 = dict(fp, set=loc.get('set'), label=loc.get('label'))
+            f2['only_set_order'] = C.canon_modulo_set_order(st.get('file')) == C.canon_modulo_set_order(st2.get('file'))
             f2['renamed'] = bool(loc.get('object_want') and str(loc['object_want'][2]).startswith('RENAMED'))
             if loc.get('got') and loc.get('want'):
                 gv, wv = loc['got'].get('values'), loc['want'].get('values')
